@@ -81,6 +81,12 @@ func (pass *InlineObjectsWithTypes) Process(schemas []*ast.Schema) ([]*ast.Schem
 		newSchemas[i].Objects = schema.Objects.Filter(func(_ string, object ast.Object) bool {
 			return !pass.objectsToInline.Has(object.SelfRef.String())
 		})
+
+		// the entry point can not designate an object that was inlined
+		if schema.EntryPoint != "" && !newSchemas[i].HasObject(schema.EntryPoint) {
+			newSchemas[i].EntryPoint = ""
+			newSchemas[i].EntryPointType = ast.Type{}
+		}
 	}
 
 	return newSchemas, nil
